@@ -450,7 +450,99 @@ fn parent_std_closed(ctx: &mut Ctx, rng: &mut Rng, i: u64) {
     run::end_case();
 }
 
+/// A second command is started while an exchange with the first one is under way: the pipe ends the Communicator (or a
+/// stream adapter) holds for the first child are the parent's side of a library pipe like any other.
+fn while_communicating(ctx: &mut Ctx, rng: &mut Rng, i: u64) {
+    use std::io::Read;
+    run::begin_case();
+    let dir = ctx.scratch("c08w");
+    let exe_a = spawn::report_exe(ctx, &dir, "a", "h");
+    let exe_b = spawn::report_exe(ctx, &dir, "b", "x");
+    let how = ["communicate_start", "communicate_start+read", "Exec::communicate", "Exec::communicate+read", "Exec::stream_stdout", "Exec::stream_stdin", "Pipeline::communicate+read"][(i % 7) as usize];
+    let input = vec![b'i'; *rng.pick(&[0usize, 10, 5000, 200_000])];
+    // holders of the first command, kept alive across the second spawn
+    let mut keep_popen: Option<Popen> = None;
+    let mut keep_comm: Option<subprocess::Communicator> = None;
+    let mut keep_reader: Option<Box<dyn Read>> = None;
+    let mut keep_writer: Option<Box<dyn std::io::Write>> = None;
+    let inp = input.clone();
+    let m = run::monitored(|| -> Result<(), String> {
+        match how {
+            "communicate_start" | "communicate_start+read" => {
+                let mut p = Popen::create(&[exe_a.clone().into_os_string()], PopenConfig { stdin: Redirection::Pipe, stdout: Redirection::Pipe, stderr: Redirection::Pipe, ..Default::default() }).map_err(|e| e.to_string())?;
+                let mut c = p.communicate_start(Some(inp)).limit_time(std::time::Duration::from_millis(2));
+                if how.ends_with("read") {
+                    let _ = c.read();
+                }
+                keep_comm = Some(c);
+                keep_popen = Some(p);
+            }
+            "Exec::communicate" | "Exec::communicate+read" => {
+                let mut c = Exec::cmd(&exe_a).stdin(inp).stdout(Redirection::Pipe).stderr(Redirection::Pipe).communicate().map_err(|e| e.to_string())?.limit_time(std::time::Duration::from_millis(2));
+                if how.ends_with("read") {
+                    let _ = c.read();
+                }
+                keep_comm = Some(c);
+            }
+            "Exec::stream_stdout" => keep_reader = Some(Box::new(Exec::cmd(&exe_a).stream_stdout().map_err(|e| e.to_string())?)),
+            "Exec::stream_stdin" => keep_writer = Some(Box::new(Exec::cmd(&exe_a).stdout(subprocess::NullFile).stream_stdin().map_err(|e| e.to_string())?)),
+            _ => {
+                let exe_a2 = spawn::report_exe(ctx, &dir, "a2", "h");
+                let mut c = (Exec::cmd(&exe_a) | Exec::cmd(&exe_a2)).stdin(inp).communicate().map_err(|e| e.to_string())?.limit_time(std::time::Duration::from_millis(2));
+                let _ = c.read();
+                keep_comm = Some(c);
+            }
+        }
+        Ok(())
+    });
+    if let Some(Err(e)) = &m.result {
+        ctx.inconclusive("first command could not be started", J::s(e));
+        run::end_case();
+        return;
+    }
+    if m.panic.is_some() || m.cert.is_some() {
+        ctx.inconclusive("first command: exchange did not get under way", J::s(&format!("{:?}", m.panic)));
+        run::end_case();
+        return;
+    }
+    let _ = spawn::get_report(&exe_a, 3000);
+    // the second, unrelated command
+    let cfg_b = match rng.below(3) { 0 => PopenConfig::default(), 1 => PopenConfig { stdout: Redirection::Pipe, ..Default::default() }, _ => PopenConfig { stdin: Redirection::Pipe, stdout: Redirection::Pipe, stderr: Redirection::Merge, ..Default::default() } };
+    let m2 = run::monitored(|| Popen::create(&[exe_b.clone().into_os_string()], cfg_b));
+    let evs = ilog::snapshot();
+    let lib: BTreeSet<u64> = spawn::lib_pipes(&evs).iter().map(|p| p.ino).collect();
+    ctx.count("spawns_while_an_exchange_with_another_child_is_under_way", 1);
+    match m2.result {
+        Some(Ok(mut pb)) => {
+            if let Some(rep) = spawn::get_report(&exe_b, 3000) {
+                let own: Vec<Option<u64>> = vec![ino_of(&pb.stdin), ino_of(&pb.stdout), ino_of(&pb.stderr)];
+                let mut roles: BTreeMap<u64, String> = BTreeMap::new();
+                for ino in &lib {
+                    roles.insert(*ino, if own.iter().any(|o| *o == Some(*ino)) { "parent-side-of-own-pipe".to_string() } else { format!("pipe-of-the-first-command({})", how) });
+                }
+                audit_child(ctx, &format!("second command, started while {} of the first was alive", how), "while-communicating", &rep, &lib, &roles, &evs);
+            } else {
+                ctx.inconclusive("second child did not report", J::s(how));
+            }
+            drop(pb.stdin.take());
+            let _ = pb.wait();
+        }
+        Some(Err(e)) => ctx.inconclusive("second spawn failed", J::s(&format!("{:?}", e))),
+        None => ctx.violation("C08/panic", "Popen::create panicked", J::s(m2.panic.as_deref().unwrap_or(""))),
+    }
+    // end the first command before its holders are dropped (a stream adapter waits for it)
+    inspect::kill_descendants();
+    drop(keep_comm);
+    drop(keep_reader);
+    drop(keep_writer);
+    drop(keep_popen);
+    ctx.distinct(&format!("whilecomm|{}|{}", how, input.len()));
+    run::end_case();
+}
+
 pub fn run(ctx: &mut Ctx) {
+    let nw = ctx.n(210, 4000);
+    ctx.family("while-communicating", nw, while_communicating);
     let nx = ctx.n(120, 1500);
     ctx.family("parent-std-closed", nx, parent_std_closed);
     let ns = ctx.n(640, 15_000);
